@@ -197,7 +197,17 @@ pub fn gen_base(rng: &mut Rng, m: Meth, class: ProbClass, entry: Entry) -> Scena
             len = 6.0 / rate;
         }
     }
-    let xend = if backward { x0 - len } else { x0 + len };
+    let mut xend = if backward { x0 - len } else { x0 + len };
+    // landing on an end point of small magnitude from far away: x + (xend - x) then misses xend by
+    // an ulp far more often than for |xend| ~ |x| (this is where closing-step and span-end rounding
+    // issues live). Only for problems without a preferred time origin.
+    let movable = !matches!(prob, Problem::Riccati | Problem::Disc { .. } | Problem::Robertson | Problem::Forced);
+    if movable && rng.bool(0.12) {
+        let e = rng.sign() * rng.logu(1e-3, 1e-1);
+        let shift = e - xend;
+        x0 += shift;
+        xend = e;
+    }
     let mut sc = Scenario::basic(m, prob, x0, xend, y0);
     sc.entry = entry;
     let rtol = gen_rtol(rng, m);
